@@ -39,12 +39,16 @@ func init() {
 		// goimports yields the same import set only if the block moq emits is already exact
 		gen.CheckKinds(c.Run, c.Prog)
 		flagFlow(c, "fmt")
+		// what reaches stdout or the -out file is exactly what Mock wrote (no re-printing, no extra bytes)
+		if cl := cli(c); cl != nil {
+			gen.CheckAllOrNothingCLI(c.Run, c.Prog, cl)
+		}
 		genFormat(c)
 	})
 	register("C20", "other", func(c *Ctx) {
 		skeletonExplain(c, "C20 (one mock per requested interface, named as requested, independent): in every skeleton with 1..2 (thorough: 3) mocks the top-level type declarations are exactly the mock names in argument order; the generator side (argument parsing table, index-preserving construction of the mock list, fresh method scope per method, no package-level state) is checked on the generator's source.")
 		c.Run.Floor("K-DECLS/types", 1)
-		c.RunSkeletons(SkelOpts{Rules: []string{"K-DECLS/types", "K-DECLS/extra", "K-MSET/unexpected", "G-DATA/mocks", "G-DATA/methods/count", "G-SCOPE", "G-MOCK/lookups"}})
+		c.RunSkeletons(SkelOpts{Rules: []string{"K-DECLS/types", "K-DECLS/extra", "K-MSET/unexpected", "G-DATA/mocks", "G-DATA/methods/count", "G-SCOPE", "G-MOCK/lookups", "G-MOCK/infrastructure-imports-last"}})
 		genMocks(c)
 	})
 	register("C01", "other", func(c *Ctx) {
